@@ -4,8 +4,92 @@
    is (declared size, samples); see Model/Thetas.v. *)
 From Coq Require Import ZArith List Permutation Decimal.
 From Batchie Require Import Lib.Sexp Model.Thetas Proofs.C10Sort Proofs.C10Thetas Proofs.C10Witness.
+From Batchie Require Import Generated.SrcThetas Proofs.C10Source.
 Import ListNotations.
 Open Scope Z_scope.
+
+(* ---- tie to the code ----
+   The methods of batchie.core.ThetaHolder are re-translated into Gallina from /repo's current source on every
+   run (harness/py2gal.py -> Generated/SrcThetas.v: their branches, raises, arithmetic, the loop of concat, the
+   attribute stores).  The translation works on holder OBJECTS o = (class id, attribute values): py_class o is
+   the class (0 = ThetaHolder itself), snd o the model's holder (declared size = self._n_thetas, samples =
+   self.thetas).  Each theorem states, for ALL inputs, what the translated method does in terms of the
+   hand-written model's function on the attribute values, so every theorem below about get_theta / add_theta /
+   is_complete / combine_holders / concat_holders is a theorem about the translated source. *)
+
+(* ThetaHolder.__init__(n): declared size n, no samples, whatever the fresh instance was *)
+Theorem C10_model_is_source_init : forall (P S : Type) (self : pyobj P S) n,
+  src_init P S self n = Ok (py_class self, empty_holder P S n).
+Proof. exact src_init_is_model. Qed.
+Print Assumptions C10_model_is_source_init.
+
+(* the property n_thetas reads the declared size *)
+Theorem C10_model_is_source_n_thetas : forall (P S : Type) (self : pyobj P S),
+  src_n_thetas P S self = Ok (h_declared (snd self)).
+Proof. exact src_n_thetas_is_model. Qed.
+Print Assumptions C10_model_is_source_n_thetas.
+
+(* get_theta: the bound check, its raise, and the list indexing self.thetas[step_index] (Python semantics:
+   a negative index would count from the end, an index past the end would be an IndexError - neither is
+   reachable behind the check) *)
+Theorem C10_model_is_source_get_theta : forall (P S : Type) (self : pyobj P S) i,
+  src_get_theta P S self i = get_theta P S (snd self) i.
+Proof. exact src_get_theta_is_model. Qed.
+Print Assumptions C10_model_is_source_get_theta.
+
+(* add_theta mutates self: the translation denotes the new value of self (same class) *)
+Theorem C10_model_is_source_add_theta : forall (P S : Type) (self : pyobj P S) t,
+  src_add_theta P S self t = (dor h <- add_theta P S (snd self) t; Ok (py_class self, h)).
+Proof. exact src_add_theta_is_model. Qed.
+Print Assumptions C10_model_is_source_add_theta.
+
+Theorem C10_model_is_source_is_complete : forall (P S : Type) (self : pyobj P S),
+  src_is_complete P S self = Ok (is_complete P S (snd self)).
+Proof. exact src_is_complete_is_model. Qed.
+Print Assumptions C10_model_is_source_is_complete.
+
+(* combine: refuses objects of different classes (the guard the model leaves out), otherwise returns a NEW
+   instance of ThetaHolder itself holding the model's combination *)
+Theorem C10_model_is_source_combine : forall (P S : Type) (a b : pyobj P S),
+  src_combine P S a b
+  = if py_class a =? py_class b then Ok (as_obj (combine_holders P S (snd a) (snd b))) else Err 6.
+Proof. exact src_combine_is_model. Qed.
+Print Assumptions C10_model_is_source_combine.
+
+(* concat (its two length tests, instances[0], the loop over instances[1:] with the class guard and
+   first = first.combine(instance)) on any list of instances of ThetaHolder itself - every holder in the tree *)
+Theorem C10_model_is_source_concat : forall (P S : Type) (hs : list (holder P S)),
+  src_concat P S (map as_obj hs) = (dor h <- concat_holders P S hs; Ok (as_obj h)).
+Proof. exact src_concat_is_model. Qed.
+Print Assumptions C10_model_is_source_concat.
+
+(* load_h5 and save_h5 are translated too, with the h5py / dict plumbing as configured primitives (the list is in
+   harness/src_functions.py C10_LOAD / C10_SAVE and in the harness ASSUMPTIONS); what the translation contributes is
+   the skeleton: the n_thetas attribute, the empty-holder refusal, shared parameters taken from sample 0, one group
+   per enumerate index named str(i), sorted(..., key=int) over the group names, the loop in that order with
+   g[name] and add_theta, the returned holder.
+
+   load_h5 on any file whose private_params group has no two members of the same name (true of every HDF5 file) *)
+Theorem C10_model_is_source_load_h5 : forall (P S : Type) (h5 : file P S),
+  NoDup (map fst (f_groups h5)) ->
+  src_load_h5 P S h5 = (dor h <- load P S h5; Ok (as_obj h)).
+Proof. exact src_load_h5_is_model. Qed.
+Print Assumptions C10_model_is_source_load_h5.
+
+(* save_h5 returns nothing: its translation denotes what has been written (h5w); read back as a file (h5_close:
+   all parts present, members in h5py's name order) it is the model's save, for every object *)
+Theorem C10_model_is_source_save_h5 : forall (P S : Type) (self : pyobj P S),
+  (dor w <- src_save_h5 P S self; h5_close w) = save P S (snd self).
+Proof. exact src_save_h5_is_model. Qed.
+Print Assumptions C10_model_is_source_save_h5.
+
+(* the round trip through the two translated methods is the model's save_load (no side condition: the names
+   save_h5 writes are distinct), so C10_load_save* are theorems about the translated source *)
+Theorem C10_model_is_source_save_load : forall (P S : Type) (self : pyobj P S),
+  (dor w <- src_save_h5 P S self; dor f <- h5_close w; src_load_h5 P S f)
+  = (dor h <- save_load P S (snd self); Ok (as_obj h)).
+Proof. exact src_save_load_is_model. Qed.
+Print Assumptions C10_model_is_source_save_load.
 
 (* ---- persistence ---- *)
 
